@@ -46,6 +46,9 @@ ASSUMPTIONS = [
 def load_and_run(text, tmp):
     from mpilot.program import Program
 
+    from ..history import maybe_earlier_v2_load
+
+    maybe_earlier_v2_load(text)
     prog = Program.from_source(text, working_dir=tmp)
     prog.run()
     return prog
